@@ -62,6 +62,8 @@ func (o cOp) String() string {
 		return fmt.Sprintf("GETATTR f%d", o.File)
 	case "readdir":
 		return fmt.Sprintf("READDIR %s", d[o.Dir])
+	case "readdirplus":
+		return fmt.Sprintf("READDIRPLUS %s", d[o.Dir])
 	}
 	return fmt.Sprintf("%s %s/%s", strings.ToUpper(o.Kind), d[o.Dir], o.Name)
 }
@@ -75,6 +77,7 @@ type cRes struct {
 	Data   string
 	Eof    bool
 	Names  string // sorted, comma separated
+	Plus   string // READDIRPLUS: what the entries say about the shared files' sizes and the names' handles
 	Ftype  nt.Ftype3
 }
 
@@ -129,6 +132,23 @@ func (s cState) listing(dir int) string {
 	}
 	sort.Strings(names)
 	return strings.Join(names, ",")
+}
+
+// plus: what a READDIRPLUS of dir must say about the shared files (root only) and the handles of the names.
+func (s cState) plus(dir int) string {
+	var parts []string
+	if dir == 0 {
+		parts = append(parts, fmt.Sprintf("f0=%d", s.Size[0]), fmt.Sprintf("f1=%d", s.Size[1]))
+	}
+	ks := make([]string, 0, len(s.Names[dir]))
+	for k := range s.Names[dir] {
+		ks = append(ks, k)
+	}
+	sort.Strings(ks)
+	for _, k := range ks {
+		parts = append(parts, fmt.Sprintf("%s=%x", k, s.Names[dir][k]))
+	}
+	return strings.Join(parts, ",")
 }
 
 // cStep: is (input, output) a legal step from state s, and what is the next state?
@@ -195,6 +215,8 @@ func cStep(s cState, o cOp, r cRes) (bool, cState) {
 		return r.OK && r.Handle == h && r.Fileid == s.Ids[h] && r.Ftype == want, s
 	case "readdir":
 		return r.OK && r.Names == s.listing(o.Dir), s
+	case "readdirplus":
+		return r.OK && r.Names == s.listing(o.Dir) && r.Plus == s.plus(o.Dir), s
 	case "getattr":
 		return r.OK && r.Size == s.Size[o.File], s
 	case "read":
@@ -386,6 +408,23 @@ func (w *cWorld) exec(api API, o cOp) cRes {
 		}
 		sort.Strings(names)
 		return cRes{OK: r.Status == nt.NFS3_OK && r.Resok.Reply.Eof, Names: strings.Join(names, ",")}
+	case "readdirplus":
+		r := api.NFSPROC3_READDIRPLUS(nt.READDIRPLUS3args{Dir: w.Dirs[o.Dir], Dircount: 65536, Maxcount: 65536})
+		var names, sizes, handles []string
+		for e := r.Resok.Reply.Entries; e != nil; e = e.Nextentry {
+			n := string(e.Name)
+			names = append(names, n)
+			switch {
+			case n == "f0" || n == "f1":
+				sizes = append(sizes, fmt.Sprintf("%s=%d", n, e.Name_attributes.Attributes.Size))
+			case n == "a" || n == "b" || n == "c" || n == "x" || n == "y":
+				handles = append(handles, fmt.Sprintf("%s=%x", n, e.Name_handle.Handle.Data))
+			}
+		}
+		sort.Strings(names)
+		sort.Strings(sizes)
+		sort.Strings(handles)
+		return cRes{OK: r.Status == nt.NFS3_OK && r.Resok.Reply.Eof, Names: strings.Join(names, ","), Plus: strings.Join(append(sizes, handles...), ",")}
 	case "getattr":
 		r := api.NFSPROC3_GETATTR(nt.GETATTR3args{Object: w.Files[o.File]})
 		return cRes{OK: r.Status == nt.NFS3_OK, Size: uint64(r.Resok.Obj_attributes.Size)}
@@ -409,12 +448,18 @@ type cGenCfg struct {
 	BigTrunc  bool // truncations large enough for the background shrinker
 	NameOps   bool
 	DirRename bool
+	// RootPlus: READDIRPLUS of the root (the only directory all of whose entries come after it in the lock
+	// order; READDIRPLUS of other directories is known finding KF1 and stays out of concurrent programs)
+	RootPlus bool
 }
 
 func genCOp(t *rapid.T, cfg cGenCfg, tag *uint32) cOp {
 	kinds := []string{}
 	if cfg.NameOps {
 		kinds = append(kinds, "create", "create", "remove", "remove", "rename", "rename", "rename", "lookup", "lookup", "mkdir", "rmdir", "readdir")
+		if cfg.RootPlus {
+			kinds = append(kinds, "readdirplus")
+		}
 	}
 	if cfg.DataOps {
 		kinds = append(kinds, "write", "write", "read", "read", "setattr", "getattr")
@@ -422,6 +467,9 @@ func genCOp(t *rapid.T, cfg cGenCfg, tag *uint32) cOp {
 	o := cOp{Kind: pick(t, kinds, "kind"), Dir: rapid.IntRange(0, 2).Draw(t, "dir"), File: rapid.IntRange(0, 1).Draw(t, "file")}
 	if cfg.Focus {
 		defer func(o *cOp) {
+			if o.Kind == "readdirplus" {
+				return
+			}
 			o.Dir, o.Dir2, o.File = cfg.FocusDir, cfg.FocusDir, 0
 			for _, p := range []*string{&o.Name, &o.Name2} {
 				if *p == "c" {
@@ -434,6 +482,8 @@ func genCOp(t *rapid.T, cfg cGenCfg, tag *uint32) cOp {
 		}(&o)
 	}
 	switch o.Kind {
+	case "readdirplus":
+		o.Dir = 0
 	case "create", "remove", "lookup":
 		o.Name = pick(t, cFileNames, "name")
 		if o.Kind != "create" && rapid.IntRange(0, 4).Draw(t, "dirname") == 0 {
@@ -626,6 +676,7 @@ func (w *cWorld) runConcurrentFrom(progs [][]cOp, yieldSeed uint64, viaRPC bool,
 		ops = append(ops, porcupine.Operation{ClientId: obs, Input: op, Call: call, Output: res, Return: atomic.AddInt64(&clock, 1)})
 	}
 	fo := GuardTxn(watchdog, func() {
+		final(cOp{Kind: "readdirplus", Dir: 0})
 		for d := 0; d < 3; d++ {
 			final(cOp{Kind: "readdir", Dir: d})
 			for _, n := range append(append([]string{}, cFileNames...), cDirNames...) {
@@ -658,6 +709,8 @@ func conflicting(ops []porcupine.Operation) int {
 			return []string{fmt.Sprintf("%d/%s", o.Dir, o.Name), fmt.Sprintf("%d/%s", o.Dir2, o.Name2)}
 		case "readdir":
 			return []string{fmt.Sprintf("%d/*", o.Dir)}
+		case "readdirplus":
+			return []string{fmt.Sprintf("%d/*", o.Dir), "f0", "f1"}
 		}
 		return []string{fmt.Sprintf("%d/%s", o.Dir, o.Name)}
 	}
